@@ -141,6 +141,8 @@ func main() {
 	floats(c)
 	duration(c)
 	intSize32(c)
+	exactArithmetic(c)
+	timeConversions(c)
 	c.Sample(map[string]interface{}{"type": "int", "go": "uint64", "value": "18446744073709551615", "direction": "encode", "expected": "error"})
 	c.Sample(map[string]interface{}{"type": "bigint", "go": "int8", "value": "-129", "direction": "decode", "expected": "error"})
 	c.Set("states", int64(pairs))
@@ -149,7 +151,7 @@ func main() {
 	c.Set("type_pairs", pairs)
 	c.Set("exact_conversions", exact)
 	c.Set("refused_conversions", refused)
-	c.Set("rule", "pairs (numeric CQL type, Go numeric representation incl. pointers, *big.Int, base-10 strings, float32/64, *big.Float) x both directions x {0,+-1,+-(2^k-1),+-2^k,+-(2^k+1) for k in 7,8,15,16,31,32,63,64,70}; oracle with math/big: error, or exactly the same mathematical value; intSize=32 branches through the export seam")
+	c.Set("rule", "pairs (numeric CQL type, Go numeric representation incl. pointers, *big.Int, base-10 strings, float32/64, *big.Float) x both directions x {0,+-1,+-(2^k-1),+-2^k,+-(2^k+1) for k in 7,8,15,16,31,32,63,64,70}; oracle with math/big: error, or exactly the same mathematical value; intSize=32 branches through the export seam; addExact/multiplyExact/floorDiv/floorMod over a grid of ~400 x ~400 int64 operands (every +-2^k and neighbours, limit quotients, multiply-wrapping operands); time.Time at those seconds x 8 nanosecond parts into timestamp and date")
 	c.Finish()
 }
 
